@@ -91,7 +91,10 @@ def compare(src, ref, toks, case, how):
                 want = float(r.value)
             except OverflowError:
                 want = float('inf')
-            if v != want:
+            # tolerance: picotool converts integer and fraction parts separately in double precision (its docstring
+            # says values need not match PICO-8's 16.16 fixed point exactly); 2^-40 relative is far below one
+            # fixed-point unit and far above accumulated rounding
+            if v != want and not (abs(v - want) <= 2.0 ** -40 * max(1.0, abs(want))):
                 raise Violation('%s: numeral %s has value %r, grammar says %r'
                                 % (where, show(r.text), v, want), case, 'number-value')
         if (t._lineno, t._charno) != (r.line, r.col):
@@ -296,10 +299,18 @@ def part_cli(ctx):
     ctx.hyp('cli', st.binary(min_size=100, max_size=100), body, max_examples=40 if ctx.quick else 400)
 
 
+def part_fuzz(ctx):
+    """Coverage-guided bytes -> REFLEX-valid filter -> the same differential oracle (thorough tier; needs atheris)."""
+    corpus = [b'x=1', b'a..b', b'"s\\65"', b'--[[c]]x', b'0x1f.8', b'if (a) b=1\n', b'::l::', b'[=[x]=]',
+              b"'\\x41'", b'a>>>b', b'1e+5', b'x\r\ny', b'\x8e=1']
+    ctx.fuzz('c07', runs=120000, max_len=96, corpus=corpus)
+
+
 def parts(tier):
     if tier == 'quick':
         return [('soup', part_soup, 4), ('strings', part_strings, 3), ('chars', part_chars, 3), ('pairs', part_pairs, 5), ('cli', part_cli, 1)]
-    return [('soup', part_soup, 5), ('strings', part_strings, 4), ('chars', part_chars, 3), ('pairs', part_pairs, 3), ('cli', part_cli, 1)]
+    return [('soup', part_soup, 4), ('strings', part_strings, 3), ('chars', part_chars, 2), ('pairs', part_pairs, 3), ('cli', part_cli, 1),
+            ('fuzz', part_fuzz, 3)]
 
 
 def replay(case):
